@@ -47,8 +47,11 @@ type c16Item struct {
 	sub        string
 	cookie     string
 	err        error
-	mintErr    error  // part "life": CreateSession refused the assertion
+	mintErr    error  // the code under test minted no (usable) token: CreateSession / TrackRequest returned an error, panicked, set no cookie
 	ckMaxAge   string // Max-Age attribute of the Set-Cookie line CreateSession wrote ("" = none)
+	pick       int    // concrete names of the URL classes (c16UrlConc)
+	ownAud     string // audience = issuer the model says this deployment's codecs require
+	mintAud    string // audience = issuer the model says the minting deployment's codec stamps ("" = no prediction)
 }
 
 func c16LoadVecs(t *testing.T, rep *Report) ([]*c16Vec, []*c16MapVec) {
@@ -78,7 +81,10 @@ func c16LoadVecs(t *testing.T, rep *Report) ([]*c16Vec, []*c16MapVec) {
 // c16Prepare chooses the deployment, cookie name and (for minted tokens) the assertion.
 func c16PrepareTok(env *c16Env, it *c16Item) {
 	v, rng := it.vec, it.rng
-	it.d = env.depl(v.Cfg, "this", spRoot)
+	it.pick = rng.Intn(c16UrlPicks)
+	ownRoot := c16MustUrl(v.Cfg.Url, it.pick)
+	it.ownAud = c16MustUrl(v.Mint.Own, it.pick)
+	it.d = env.depl(v.Cfg, "this", ownRoot)
 	it.cookie = it.d.cookie
 	if v.In.Slot == "other" {
 		if v.Cfg.Cookie == "custom" {
@@ -90,14 +96,13 @@ func c16PrepareTok(env *c16Env, it *c16Item) {
 	if v.In.Src != "minted" {
 		return
 	}
-	which, root := "this", spRoot
+	// the minting deployment: its key by the vector's key class, its Options.URL the record the model states
+	which := "this"
 	if v.In.Key == "other" {
 		which = "other"
 	}
-	if v.In.Iss == "other" {
-		root = c16OtherRoots[rng.Intn(len(c16OtherRoots))]
-	}
-	it.minter = env.depl(v.Cfg, which, root)
+	it.mintAud = c16MustUrl(v.Mint.Aud, it.pick)
+	it.minter = env.depl(v.Cfg, which, c16MustUrl(v.Mint.Url, it.pick))
 	it.mintAge = v.In.Age
 	it.mintStr = v.In.Kind == "tracking" && v.In.Audform == "str"
 	if v.In.Kind == "session" {
@@ -113,7 +118,9 @@ func c16PrepareTok(env *c16Env, it *c16Item) {
 
 func c16PrepareMap(env *c16Env, it *c16Item) {
 	v, rng := it.mvec, it.rng
-	it.d = env.depl(v.Cfg, "this", spRoot)
+	it.pick = rng.Intn(c16UrlPicks)
+	it.d = env.depl(v.Cfg, "this", c16MustUrl(v.Cfg.Url, it.pick))
+	it.mintAud = c16MustUrl(v.Pred.Aud, it.pick)
 	it.minter = it.d
 	it.cookie = it.d.cookie
 	ages := []int64{1, 7, v.Cfg.Life / 2, v.Cfg.Life - 1}
@@ -151,7 +158,9 @@ func c16PrepareMap(env *c16Env, it *c16Item) {
 // c16PrepareLife concretises an assertion with IdP-stated ends around the mint time nowSec - age.
 func c16PrepareLife(env *c16Env, it *c16Item, nowSec int64) {
 	v, rng := it.lvec, it.rng
-	it.d = env.depl(v.Cfg, "this", spRoot)
+	it.pick = rng.Intn(c16UrlPicks)
+	it.d = env.depl(v.Cfg, "this", c16MustUrl(v.Cfg.Url, it.pick))
+	it.mintAud = c16MustUrl(v.Pred.Aud, it.pick)
 	it.minter = it.d
 	it.cookie = it.d.cookie
 	it.mintAge = v.In.Age
@@ -175,7 +184,7 @@ func c16PrepareLife(env *c16Env, it *c16Item, nowSec int64) {
 	}
 	it.expSubject = c16SafeSubjects[rng.Intn(len(c16SafeSubjects))]
 	it.ends = c16LifeEndsOf(v, nowSec-v.In.Age, rng)
-	it.assertion = c16LifeAssertion(c16BuildAssertion(&it.expSubject, true, it.stmts, it.authn), it.ends, nowSec-v.In.Age, it.d.root+"/saml/acs")
+	it.assertion = c16LifeAssertion(c16BuildAssertion(&it.expSubject, true, it.stmts, it.authn), it.ends, nowSec-v.In.Age, it.d.at("/saml/acs"))
 }
 
 // c16MintItem runs the real minting code (saml.TimeNow is set by the caller).
@@ -188,18 +197,23 @@ func c16MintItem(it *c16Item) {
 	it.sub = it.expSubject
 }
 
-// c16CheckMinted verifies that the real token has the abstract shape the vector describes.
-func c16CheckMinted(it *c16Item, nowSec int64) error {
-	if it.lvec != nil || it.mvec != nil {
-		m, err := c16PeekClaims(it.pristine)
-		if err != nil {
-			return err
-		}
-		num := func(k string) int64 {
-			n, _ := m[k].(json.Number)
-			v, _ := n.Int64()
-			return v
-		}
+// c16MintDrift compares what the code under test minted with what the model of the mint predicts: the times
+// (MintTimes .. ProviderCreateSession), the form of aud, and issuer and audience (step NewCodecs: what samlsp.New
+// derived from the minting deployment's Options.URL).  What the code mints is BEHAVIOUR: every difference is drift,
+// never a harness failure - the real token is presented anyway and the statement's oracle judges what it authenticates.
+func c16MintDrift(it *c16Item, nowSec int64) []string {
+	m, err := c16PeekClaims(it.pristine)
+	if err != nil {
+		return []string{fmt.Sprintf("what was minted is not header.claims.signature with JSON claims: %v", err)}
+	}
+	num := func(k string) int64 {
+		n, _ := m[k].(json.Number)
+		v, _ := n.Int64()
+		return v
+	}
+	var out []string
+	switch {
+	case it.lvec != nil || it.mvec != nil:
 		mint, predExp, txt := nowSec-it.mintAge, int64(0), ""
 		if it.lvec != nil {
 			predExp, txt = it.lvec.Pred.Exp, c16LifeText(it.lvec)
@@ -207,36 +221,25 @@ func c16CheckMinted(it *c16Item, nowSec int64) error {
 			predExp, txt = it.mvec.Pred.Exp, "configuration "+it.mvec.Cfg.String()
 		}
 		if num("iat") != mint || num("nbf") != mint || num("exp") != mint+predExp {
-			return fmt.Errorf("minted token times iat=%d nbf=%d exp=%d relative to the mint, the model of CreateSession (JWTSessionCodec.New, then the cookie provider) says 0 0 %d (%s)",
-				num("iat")-mint, num("nbf")-mint, num("exp")-mint, predExp, txt)
+			out = append(out, fmt.Sprintf("minted token times iat=%d nbf=%d exp=%d relative to the mint, the model of CreateSession (JWTSessionCodec.New, then the cookie provider) says 0 0 %d (%s)",
+				num("iat")-mint, num("nbf")-mint, num("exp")-mint, predExp, txt))
 		}
-		return nil
+	case it.vec != nil:
+		t := it.vec.In
+		if num("iat") != nowSec+t.Iat || num("nbf") != nowSec+t.Nbf || num("exp") != nowSec+t.Exp {
+			out = append(out, fmt.Sprintf("minted token times iat=%d nbf=%d exp=%d, vector wants %d %d %d relative to %d",
+				num("iat"), num("nbf"), num("exp"), t.Iat, t.Nbf, t.Exp, nowSec))
+		}
 	}
-	if it.vec == nil {
-		return nil
+	iss, aud, isStr, _ := c16PeekIdent(it.pristine)
+	if it.vec != nil && isStr != (it.vec.In.Audform == "str") {
+		out = append(out, fmt.Sprintf("minted %s token aud form: string=%v, vector says %s", it.vec.In.Kind, isStr, it.vec.In.Audform))
 	}
-	t := it.vec.In
-	m, err := c16PeekClaims(it.pristine)
-	if err != nil {
-		return err
+	if it.mintAud != "" && (iss != it.mintAud || aud != it.mintAud) {
+		out = append(out, fmt.Sprintf("minted token iss %q aud %q; the model of samlsp.New (Audience = Issuer = Options.URL.String()) says %q for a deployment at %s",
+			iss, aud, it.mintAud, it.minter.root))
 	}
-	num := func(k string) int64 {
-		n, _ := m[k].(json.Number)
-		v, _ := n.Int64()
-		return v
-	}
-	if num("iat") != nowSec+t.Iat || num("nbf") != nowSec+t.Nbf || num("exp") != nowSec+t.Exp {
-		return fmt.Errorf("minted token times iat=%d nbf=%d exp=%d, vector wants %d %d %d relative to %d",
-			num("iat"), num("nbf"), num("exp"), t.Iat, t.Nbf, t.Exp, nowSec)
-	}
-	_, isStr := m["aud"].(string)
-	if isStr != (t.Audform == "str") {
-		return fmt.Errorf("minted %s token aud form: string=%v, vector says %s", t.Kind, isStr, t.Audform)
-	}
-	if (m["iss"] == spRoot) != (t.Iss == "eq") {
-		return fmt.Errorf("minted token iss %v, vector says %s", m["iss"], t.Iss)
-	}
-	return nil
+	return out
 }
 
 type c16Result struct {
@@ -253,9 +256,37 @@ func c16ReplayTok(it *c16Item, now time.Time, res c16Result) map[string]any {
 		"now": now.Format(time.RFC3339Nano), "observed": res, "expect_subject": it.expSubject,
 		"expect_attrs": c16Expected(it.stmts, it.authn, false), "expect_attrs_by_name": c16Expected(it.stmts, it.authn, true),
 		"minted_session": it.vec.In.Src == "minted" && it.vec.In.Kind == "session",
-		// a token this deployment's CreateSession minted is minted again by the tree under replay
-		"remint":     it.vec.In.Src == "minted" && it.vec.In.Kind == "session" && it.minter == it.d && it.vec.In.Mutation == "none",
-		"life_stmts": it.stmts, "life_authn": it.authn}
+		// a session token minted by CreateSession (of this or of another deployment) is minted again by the tree under replay
+		"remint":     it.vec.In.Src == "minted" && it.vec.In.Kind == "session" && it.vec.In.Mutation == "none",
+		"life_stmts": it.stmts, "life_authn": it.authn, "own_root": it.d.root, "mint_root": c16RootOf(it.minter), "mint_key": it.vec.In.Key}
+}
+
+// c16ByText says which deployment minted a token that was not minted by the deployment it is presented to.
+func c16ByText(v *c16Vec) string {
+	if v.In.Src != "minted" || v.In.By == "this" || v.In.By == "" {
+		return ""
+	}
+	how := map[string]string{"otherKey": "has this deployment's Options.URL and another key pair", "otherURL": "has this deployment's key and sits on another origin",
+		"sibPath":  "is a sibling - this deployment's key, scheme and host, an Options.URL that differs only in the path",
+		"sibQuery": "is a sibling - this deployment's key, scheme and host, an Options.URL that differs only in the query",
+		"sibSlash": "is a sibling - this deployment's key, scheme and host, an Options.URL that differs only in a trailing slash",
+		"sibCase":  "is a sibling - this deployment's key, an Options.URL that differs only in the letter case of the host"}[v.In.By]
+	return fmt.Sprintf(" - it was minted by the real CreateSession / TrackRequest of another deployment built with samlsp.New, which %s (URL classes: minted at %s, presented at %s)",
+		how, v.Mint.Url.key(), v.Cfg.Url.key())
+}
+
+func c16RootOf(d *c16Depl) string {
+	if d == nil {
+		return ""
+	}
+	return d.root
+}
+
+// c16NoToken handles an item for which the code under test minted no usable token.  No clause of the statement
+// obliges CreateSession / TrackRequest to succeed: drift (part "life" judges it itself).
+func c16NoToken(rep *Report, it *c16Item, class string) {
+	rep.Eval(class, it.key)
+	rep.DriftCase(it.key+":mint", "the code under test minted no token to present", it.mintErr.Error())
 }
 
 // c16JudgeTok applies the property's clauses to one presented token.  expect* describe the
@@ -264,7 +295,7 @@ func c16JudgeTok(rep *Report, key string, v *c16Vec, res c16Result, expSubject s
 	o := res.Obs
 	switch {
 	case v.Class == "MustReject" && o.Ran:
-		rep.Violation(key, "request treated as authenticated (wrapped handler ran) although the presented token is: "+c16WhyText(v.Why), replay())
+		rep.Violation(key, "request treated as authenticated (wrapped handler ran) although the presented token is: "+c16WhyText(v.Why)+c16ByText(v), replay())
 		return
 	case v.Class == "MustAccept" && !o.Ran:
 		what := fmt.Sprintf("outcome %s (status %d)", o.Outcome, o.Status)
@@ -318,7 +349,7 @@ func c16JudgeTok(rep *Report, key string, v *c16Vec, res c16Result, expSubject s
 func c16ReplayLife(it *c16Item, now time.Time, o c16Obs) map[string]any {
 	return map[string]any{"kind": "life", "vector": it.lvec, "cfg": it.lvec.Cfg, "token": it.token, "cookie_name": it.cookie,
 		"now": now.Format(time.RFC3339Nano), "observed": o, "expect_subject": it.expSubject, "symbols": it.sym,
-		"life_stmts": it.stmts, "life_authn": it.authn, "life_ends": it.ends,
+		"life_stmts": it.stmts, "life_authn": it.authn, "life_ends": it.ends, "own_root": it.d.root,
 		"expect_attrs": c16Expected(it.stmts, it.authn, false), "expect_attrs_by_name": c16Expected(it.stmts, it.authn, true)}
 }
 
@@ -408,6 +439,10 @@ func TestC16(t *testing.T) {
 		"ed25519), presented in a cookie to m.RequireAccount(handler) with jwt.TimeFunc pinned, and to RequestTracker.GetTrackedRequests under saml_<sub>.  " +
 		"(MAP) assertions (0-2 statements, 0-2 attributes with/without FriendlyName, 0-2 values, colliding names, absent subject / NameID, 0-2 AuthnStatements) are " +
 		"minted by CreateSession, presented fresh, and gated by RequireAttribute for 15+ (name, value) pairs.  " +
+		"The deployment's Options.URL is the bare origin, or (minted tokens, two configurations) a non-root path with a trailing slash, a non-root path with a query, " +
+		"or the root; minted tokens also come from SIBLINGS built with samlsp.New on the same key, scheme and host whose URL differs only in the path, only in the query, " +
+		"only in a trailing slash or only in the letter case of the host: tokens for another audience or issuer yield no session.  What a mint stamps (times, aud form, " +
+		"iss, aud) is compared with the model of the mint as drift; the real token is presented whatever it carries.  " +
 		"(LIFE) assertions with 0-2 AuthnStatements (SessionIndex present/absent, SessionNotOnOrAfter absent / before the mint / inside the lifetime / beyond it), " +
 		"Conditions and SubjectConfirmationData NotOnOrAfter in the same positions, minted by CreateSession and presented at 14 clock positions around the mint, " +
 		"the IdP-stated ends and mint + lifetime: nothing the assertion says may make the token authenticate a second or more past mint + lifetime.  " +
@@ -482,9 +517,57 @@ func TestC16(t *testing.T) {
 		}
 	}
 	rep.Extra["cookie_age_separated_from_lifetime"] = map[string]any{"LIFE": sepLife, "VEC": sepTok}
-	if saml.MaxIssueDelay != c16TrkLife*time.Second {
-		rep.Break("saml.MaxIssueDelay is %v, the model assumes %d s for tracked-request tokens", saml.MaxIssueDelay, c16TrkLife)
+	// the deployment URL and the siblings (counted from the vectors: what the model requires): the vector's classes
+	// agree with its URL records; for a deployment at the bare origin and for one that is not there is a fresh
+	// session token of every sibling class, whose only fault is the other audience / issuer
+	urlDim := map[string]int{}
+	for _, v := range vecs {
+		if v.In.Src != "minted" {
+			continue
+		}
+		own, by := v.Cfg.Url.norm(), v.Mint.Url.norm()
+		known := map[string]bool{"this": true, "otherKey": true, "otherURL": true, "sibPath": true, "sibQuery": true, "sibSlash": true, "sibCase": true}
+		if !known[v.In.By] || (v.In.Iss == "eq") != (own == by) || (v.In.Aud == "eq") != (own == by) ||
+			((v.In.By == "this" || v.In.By == "otherKey") && own != by) || (v.In.Key == "other") != (v.In.By == "otherKey") {
+			rep.Break("vector %s: minted by %q at %+v for a deployment at %+v with iss=%s aud=%s key=%s", c16TokKey(v), v.In.By, by, own, v.In.Iss, v.In.Aud, v.In.Key)
+			return
+		}
+		where := "bare origin"
+		if !own.bare() {
+			where = "not the bare origin"
+			if v.Class == "MustAccept" {
+				urlDim["own fresh session token, "+where]++
+			}
+		}
+		if v.In.Kind == "session" && v.Class == "MustReject" && v.Why["otherAud"] && v.Why["otherIss"] {
+			only := true
+			for k, x := range v.Why {
+				if x && k != "otherAud" && k != "otherIss" {
+					only = false
+				}
+			}
+			if only {
+				urlDim[v.In.By+", "+where]++
+			}
+		}
+	}
+	for _, by := range []string{"otherURL", "sibPath", "sibQuery", "sibSlash", "sibCase"} {
+		for _, where := range []string{"bare origin", "not the bare origin"} {
+			if urlDim[by+", "+where] == 0 {
+				rep.Break("vacuous: no fresh session token minted by deployment class %s is presented to a deployment at %s", by, where)
+				return
+			}
+		}
+	}
+	if urlDim["own fresh session token, not the bare origin"] == 0 {
+		rep.Break("vacuous: no MustAccept vector for a deployment that is not at the bare origin")
 		return
+	}
+	rep.Extra["fresh_session_tokens_whose_only_fault_is_the_minting_deployments_url"] = urlDim
+	if saml.MaxIssueDelay != c16TrkLife*time.Second {
+		// a default of the code under test, not a harness failure: tracked-request tokens then carry another exp than
+		// the model's (drift at every such mint); no tracked-request token may authenticate whatever its times
+		rep.DriftCase("C16:defaults", "saml.MaxIssueDelay differs from the lifetime the model assumes for tracked-request tokens", fmt.Sprintf("%v, model %d s", saml.MaxIssueDelay, c16TrkLife))
 	}
 
 	oldJWT, oldSAML, oldArr := jwt.TimeFunc, saml.TimeNow, jwt.MarshalSingleStringAsArray
@@ -571,6 +654,13 @@ func TestC16(t *testing.T) {
 		}
 	}
 	rep.Extra["older_than_lifetime_before_later_idp_end"] = lifeLate
+	noted := map[string]bool{}
+	for _, d := range env.depls {
+		if d.note != "" && !noted[d.note] {
+			noted[d.note] = true
+			rep.DriftCase("C16:defaults", "samlsp.New configures another default than the model of the configuration", d.note)
+		}
+	}
 	// phase 1b: mint with the real code, grouped by mint clock (saml.TimeNow is a package variable)
 	type gk struct {
 		age int64
@@ -607,9 +697,9 @@ func TestC16(t *testing.T) {
 	// phase 1c: craft and mutate
 	parallel(len(items), func(i int) {
 		it := items[i]
-		if it.err != nil && it.lvec != nil && !strings.HasPrefix(it.err.Error(), "panic") {
-			// CreateSession returned an error for an assertion with IdP-stated ends: behaviour of the code
-			// under test (no session is created), judged in phase 2
+		if it.minter != nil && it.err != nil {
+			// CreateSession / TrackRequest returned an error, panicked or set no cookie of the configured name:
+			// behaviour of the code under test (no token exists), not a harness failure - handled in phase 2
 			it.mintErr, it.err = it.err, nil
 			return
 		}
@@ -617,17 +707,11 @@ func TestC16(t *testing.T) {
 			return
 		}
 		if it.minter != nil {
-			if it.err = c16CheckMinted(it, nowSec); it.err != nil {
-				if strings.HasPrefix(it.err.Error(), "minted token times") {
-					// the real mint does not stamp the times the model of CreateSession predicts
-					// (iat = nbf = now, exp = now + lifetime).  That is behaviour of the code under
-					// test, not a harness failure: present the real token anyway and let the
-					// statement's oracle judge what it authenticates.
-					rep.DriftCase(it.key+":mint", "minted token carries other times than the model of the mint", it.err.Error())
-					it.err = nil
-				} else {
-					return
-				}
+			// what the real mint stamps - times, form of aud, issuer and audience - is behaviour of the code under
+			// test: a difference from the model of the mint is drift; the real token is presented anyway and the
+			// statement's oracle judges what it authenticates
+			for _, d := range c16MintDrift(it, nowSec) {
+				rep.DriftCase(it.key+":mint", "minted token differs from the model of the mint", d)
 			}
 			// the Max-Age attribute of the Set-Cookie line: no clause of the statement speaks about it, drift only
 			want, has := "", false
@@ -641,7 +725,7 @@ func TestC16(t *testing.T) {
 					map[string]any{"cfg": it.minter.cfg, "codec_max_age_s": it.minter.cfg.Life, "cookie_max_age_s": it.minter.cfg.cookieMaxAge()})
 			}
 		} else {
-			c, err := c16Craft(it.vec.Cfg, it.vec.In, nowSec, it.rng)
+			c, err := c16Craft(it.vec.Cfg, it.vec.In, it.ownAud, nowSec, it.rng)
 			if err != nil {
 				it.err = err
 				return
@@ -653,6 +737,10 @@ func TestC16(t *testing.T) {
 			mut = it.vec.In.Mutation
 		}
 		it.token, it.err = c16Mutate(it.pristine, mut, it.rng)
+		if it.err != nil && it.minter != nil {
+			// the mutation does not apply to what the code under test minted (not three segments, no spare bits ...)
+			it.mintErr, it.err = fmt.Errorf("mutation %s cannot be applied to the minted token: %v", mut, it.err), nil
+		}
 	})
 	for _, it := range items {
 		if it.err != nil {
@@ -711,6 +799,10 @@ func TestC16(t *testing.T) {
 
 func c16RunTok(rep *Report, it *c16Item, now time.Time, out *c16Result) {
 	v := it.vec
+	if it.mintErr != nil {
+		c16NoToken(rep, it, v.Class)
+		return
+	}
 	res := c16Result{CookieName: it.cookie}
 	res.Obs = c16Request(it.d, c16CookieHeader(it.cookie, it.token, it.rng), nil, it.d.m.RequireAccount)
 	res.TrkAccept, res.TrkPanic = c16Tracked(it.d, it.sub, it.token)
@@ -752,6 +844,10 @@ func c16Carries(it *c16Item, n, val string) bool {
 
 func c16RunMap(rep *Report, it *c16Item, now time.Time) {
 	v := it.mvec
+	if it.mintErr != nil {
+		c16NoToken(rep, it, "MustAccept")
+		return
+	}
 	expF, expN := c16Expected(it.stmts, it.authn, false), c16Expected(it.stmts, it.authn, true)
 	hdr := c16CookieHeader(it.cookie, it.token, it.rng)
 	var first []string
@@ -763,7 +859,7 @@ func c16RunMap(rep *Report, it *c16Item, now time.Time) {
 	replay := func(kind string, extra map[string]any) map[string]any {
 		m := map[string]any{"kind": kind, "vector": v, "cfg": v.Cfg, "token": it.token, "cookie_name": it.cookie,
 			"now": now.Format(time.RFC3339Nano), "observed": o, "expect_subject": it.expSubject,
-			"expect_attrs": expF, "expect_attrs_by_name": expN, "symbols": it.sym, "map_class": v.Class}
+			"expect_attrs": expF, "expect_attrs_by_name": expN, "symbols": it.sym, "map_class": v.Class, "own_root": it.d.root}
 		for k, x := range extra {
 			m[k] = x
 		}
@@ -899,6 +995,9 @@ func init() {
 			LifeAuthn     []string            `json:"life_authn"`
 			LifeEnds      c16LifeEnds         `json:"life_ends"`
 			Remint        bool                `json:"remint"`
+			OwnRoot       string              `json:"own_root"`
+			MintRoot      string              `json:"mint_root"`
+			MintKey       string              `json:"mint_key"`
 		}
 		if err := json.Unmarshal(raw, &r); err != nil {
 			t.Fatal(err)
@@ -911,7 +1010,10 @@ func init() {
 		defer func() { jwt.TimeFunc, saml.TimeNow = oldJWT, oldSAML }()
 		jwt.TimeFunc = func() time.Time { return now }
 		saml.TimeNow = func() time.Time { return now }
-		d, err := c16NewDepl(r.Cfg, "this", spRoot)
+		if r.OwnRoot == "" {
+			r.OwnRoot = c16MustUrl(r.Cfg.Url, 0)
+		}
+		d, err := c16NewDepl(r.Cfg, "this", r.OwnRoot)
 		if err != nil {
 			t.Fatal(err)
 		}
@@ -927,8 +1029,18 @@ func init() {
 			if r.Remint {
 				// minted again by the code under test, age seconds before now (the token string of a changed
 				// mint would prove nothing on another tree)
+				minter := d
+				if r.MintRoot != "" && (r.MintRoot != r.OwnRoot || r.MintKey == "other") {
+					which := "this"
+					if r.MintKey == "other" {
+						which = "other"
+					}
+					if minter, err = c16NewDepl(r.Cfg, which, r.MintRoot); err != nil {
+						t.Fatal(err)
+					}
+				}
 				saml.TimeNow = func() time.Time { return time.Unix(now.Unix()-v.In.Age, int64(now.Nanosecond())) }
-				tok, err := c16Mint(d, c16BuildAssertion(&r.ExpectSubject, true, r.LifeStmts, r.LifeAuthn))
+				tok, err := c16Mint(minter, c16BuildAssertion(&r.ExpectSubject, true, r.LifeStmts, r.LifeAuthn))
 				saml.TimeNow = func() time.Time { return now }
 				if err != nil {
 					return v.Class == "MustAccept", fmt.Sprintf("class=%s CreateSession: %v", v.Class, err)
@@ -947,7 +1059,7 @@ func init() {
 			}
 			mintSec := now.Unix() - v.In.Age
 			saml.TimeNow = func() time.Time { return time.Unix(mintSec, int64(now.Nanosecond())) }
-			a := c16LifeAssertion(c16BuildAssertion(&r.ExpectSubject, true, r.LifeStmts, r.LifeAuthn), r.LifeEnds, mintSec, d.root+"/saml/acs")
+			a := c16LifeAssertion(c16BuildAssertion(&r.ExpectSubject, true, r.LifeStmts, r.LifeAuthn), r.LifeEnds, mintSec, d.at("/saml/acs"))
 			tok, err := c16Mint(d, a)
 			if err != nil {
 				return v.Class == "MustAccept", fmt.Sprintf("class=%s CreateSession: %v", v.Class, err)
